@@ -186,7 +186,30 @@ def c_tasks(ctx, specs):
                 (sum(gd.gaps_per_tree.values()), sum(gd.gaps_per_node.values())))
     if len(pt.tags) != n_tok or sc.cnt != len(specs):
         return ("%d tags, %d sentences" % (n_tok, len(specs)), (len(pt.tags), sc.cnt))
-    gd.done(), pt.done(), sc.done()
+    # the printed reports: totals as counted, and the per-degree rows sum to the totals
+    import contextlib
+    import io as _io
+    import re as _re
+    buf = _io.StringIO()
+    with contextlib.redirect_stdout(buf):
+        gd.done(), pt.done(), sc.done()
+    out = buf.getvalue()
+    m_tot = _re.search(r"(\d+) trees, (\d+) nodes", out)
+    rows = _re.findall(r"Gap degree\s+(\d+):\s+(\d+) (trees|nodes)", out)
+    if not m_tot:
+        return ("report line '<n> trees, <m> nodes'", out[-300:])
+    tot_trees, tot_nodes = int(m_tot.group(1)), int(m_tot.group(2))
+    rep_tree = {int(d): int(c) for d, c, k in rows if k == "trees"}
+    rep_node = {int(d): int(c) for d, c, k in rows if k == "nodes"}
+    if (tot_trees, tot_nodes) != (len(specs), n_cons) or rep_tree != exp_tree or rep_node != exp_node \
+            or sum(rep_tree.values()) != tot_trees or sum(rep_node.values()) != tot_nodes:
+        return ({"report": "%d trees, %d nodes" % (len(specs), n_cons), "per_tree": exp_tree, "per_node": exp_node},
+                {"report": "%d trees, %d nodes" % (tot_trees, tot_nodes), "per_tree": rep_tree, "per_node": rep_node})
+    m_sent = _re.search(r"(\d+) sentences", out)
+    m_tags = _re.search(r"(\d+) different tags", out)
+    n_tags = len(set(t for s_ in specs for (_, _, t) in tg.model(tg.build(s_, trees))["toks"]))
+    if not m_sent or int(m_sent.group(1)) != len(specs) or not m_tags or int(m_tags.group(1)) != n_tags:
+        return ("%d sentences, %d different tags" % (len(specs), n_tags), out[-200:])
     return None
 
 
@@ -311,8 +334,24 @@ def restructurings(ctx):
             yield {"spec": spec, "move": mv}, (tg.spec_str(spec), R.move_str(spec, mv)) if ch else None
 
 
+def _degree_gap_batches():
+    """treebanks whose observed gap degrees are not 0..k-1 (degree 2 but no degree 1, degree 3 only, ...)"""
+    def flat(nums_in_x, n):
+        rest = [i for i in range(1, n + 1) if i not in nums_in_x]
+        x = tg.node_spec("NP", [tg.leaf_spec(i, "w%d" % i, "NN") for i in nums_in_x])
+        top = tg.node_spec("VROOT", [x] + [tg.leaf_spec(i, "w%d" % i, "VB") for i in rest])
+        top["sid"] = 1
+        return top
+    cont = flat([1, 2], 3)
+    deg2 = flat([1, 3, 5], 5)
+    deg3 = flat([1, 3, 5, 7], 7)
+    return [[cont, deg2], [deg2, deg2, cont], [deg3], [cont, deg3, deg2]]
+
+
 def generate(ctx):
     b = BOUNDS(ctx)
+    for batch in _degree_gap_batches():
+        yield "tasks", batch, tg.spec_str(batch[0])
     for w, k in restructurings(ctx):
         yield "current_structure", w, k
     batch = []
